@@ -9,6 +9,7 @@ func init() {
 	vRegister("HarnessC12_nested", HarnessC12_nested)
 	vRegister("HarnessC12_named", HarnessC12_named)
 	vRegister("HarnessC12_badcount", HarnessC12_badcount)
+	vRegister("HarnessC12_scopes", HarnessC12_scopes)
 }
 
 // c12Count: a symbolic int in [-1, max]; returns it together with the
@@ -170,4 +171,84 @@ func HarnessC12_badcount() {
 	_, err := c06Eval(doc)
 	vAssert("C12.badcount", err != nil)
 	vCover("badcount.checked")
+}
+
+// HarnessC12_scopes: a repeat nested inside another repeat. The inner
+// expansion must not disturb the outer binding: uses of the outer index that
+// are evaluated before AND after the inner repeat see the outer value.
+func HarnessC12_scopes() {
+	n, kn := c12Count(2)
+	m, km := c12Count(2)
+	innerList := ndChoice(2) == 1
+	// the body of one outer copy; idx < 0 = template form
+	body := func(idx int) map[string]any {
+		b := map[string]any{}
+		if idx < 0 {
+			b["a"] = "$repeat"
+			b["z"] = `$"o{$repeat}"`
+			if innerList {
+				b["l"] = []any{map[string]any{"$repeat": m, "i": "$repeat"}}
+			} else {
+				b["m"] = map[string]any{`$"e{$repeat}"`: map[string]any{"$repeat": m, "i": "$repeat"}}
+			}
+			return b
+		}
+		b["a"] = idx
+		b["z"] = fmt.Sprintf("o%d", idx)
+		if innerList {
+			l := []any{}
+			for j := 0; j < km; j++ {
+				l = append(l, map[string]any{"i": j})
+			}
+			b["l"] = l
+		} else {
+			mm := map[string]any{}
+			for j := 0; j < km; j++ {
+				mm[fmt.Sprintf("e%d", j)] = map[string]any{"i": j}
+			}
+			b["m"] = mm
+		}
+		return b
+	}
+	var doc any
+	var want []any
+	switch ndChoice(3) {
+	case 0: // outer at document level
+		d := body(-1)
+		d["$repeat"] = n
+		doc = d
+		for i := 0; i < kn; i++ {
+			want = append(want, body(i))
+		}
+		vCover("scopes.doc")
+	case 1: // outer as a list entry
+		d := body(-1)
+		d["$repeat"] = n
+		doc = map[string]any{"outer": []any{d}}
+		l := []any{}
+		for i := 0; i < kn; i++ {
+			l = append(l, body(i))
+		}
+		want = []any{map[string]any{"outer": l}}
+		vCover("scopes.list")
+	default: // outer as a map entry with an interpolated key
+		d := body(-1)
+		d["$repeat"] = n
+		doc = map[string]any{"outer": map[string]any{`$"p{$repeat}"`: d}}
+		mm := map[string]any{}
+		for i := 0; i < kn; i++ {
+			mm[fmt.Sprintf("p%d", i)] = body(i)
+		}
+		want = []any{map[string]any{"outer": mm}}
+		vCover("scopes.map")
+	}
+	vObserve("doc", doc)
+	got, err := c06Eval(doc)
+	vAssert("C12.scopes.accepted", err == nil)
+	if want == nil {
+		want = []any{}
+	}
+	vObserve("got", got)
+	vObserve("want", want)
+	vAssert("C12.scopes.copies", vEq(got, want))
 }
